@@ -132,6 +132,23 @@ class Spec(BaseSpec):
                 st.assume(dt_aware(o))
             st.reads.add(("ambient", "clock"))
             return V.obj(o)
+        if dotted in ("datetime.datetime.fromtimestamp", "datetime.datetime.utcfromtimestamp"):
+            # a clock reading rendered as a datetime: naive LOCAL time unless a zone is given (the model has one instant: every
+            # clock reading of the call denotes UTC_NOW)
+            o = fresh("dt", I_)
+            tz = (args[1] if len(args) > 1 else kwargs.get("tz"))
+            if dotted.endswith("utcfromtimestamp"):
+                st.assume(dt_fields(o) == UTC)
+                st.assume(z3.Not(dt_aware(o)))
+            elif tz is None or (is_v(tz) and I.tag(tz) == "none"):
+                st.assume(dt_fields(o) == UTC + TZ)
+                st.assume(z3.Not(dt_aware(o)))
+            else:
+                if not (isinstance(tz, O.HExt) and tz.dotted in ("datetime.timezone.utc", "datetime.UTC")):
+                    raise OutsideSubset("datetime.fromtimestamp with a zone other than UTC")
+                st.assume(dt_fields(o) == UTC)
+                st.assume(dt_aware(o))
+            return V.obj(o)
         if dotted in ("time.time", "time.process_time"):
             st.reads.add(("ambient", "clock"))
             n = st.ghost.get("clock_reads_" + dotted, 0)
@@ -404,6 +421,9 @@ def h_timing(spec):
             spec.oblige(I, "end-never-raises", z3.BoolVal(False))
             return
         eiso, dur, cpu = models.unpack(I, o1[1], 3)
+        utc_z = vstr(z3.Concat(IsoOf(UTC), z3.StringVal("Z")))
+        spec.oblige(I, "started_at-denotes-the-UTC-instant", I.lift(siso) == utc_z, meta={"witness": "tz"})
+        spec.oblige(I, "finished_at-denotes-the-UTC-instant", I.lift(eiso) == utc_z, meta={"witness": "tz"})
         spec.oblige(I, "wall_ms-non-negative", z3.And(V.is_int(dur), V.i(dur) >= 0))
         spec.oblige(I, "cpu_ms-non-negative", z3.And(V.is_int(cpu), V.i(cpu) >= 0))
     E.run_function(spec, "_start_timing;_end_timing", body)
